@@ -336,6 +336,11 @@ func ZZC19Publisher() {
 			ss = append(ss, zzGossiped(v))
 			sent[string([]byte{byte(v), 0x5})] = true
 		}
+		if rt.Choose(fmt.Sprintf("dup%d", k), 2) == 1 {
+			// a batch may carry the same signed snapshot twice (batches are assembled by other agents)
+			ss = append(ss, zzGossiped(lo))
+			rt.Reach("duplicate-inside-a-batch")
+		}
 		batch := &protocol.BatchSnapshots{Snapshots: ss}
 		if !rt.NoPanic(func() { f.New(zzCtx{agent: a, batch: batch})() }, "publisher-task") {
 			return
